@@ -468,7 +468,6 @@ class Field(UniqueMixin, metaclass=FieldMeta):
                     not isinstance(
                         value,
                         (
-                            ImmutableMixin,
                             int,
                             float,
                             str,
@@ -477,8 +476,8 @@ class Field(UniqueMixin, metaclass=FieldMeta):
                             ImmutableStructure,
                         ),
                     )
-                    or value is None
-            )
+                    and not (isinstance(value, ImmutableMixin) and value._is_immutable())
+            ) or value is None
             try:
                 instance.__dict__[self._name] = (
                     deepcopy(value) if needs_defensive_copy else value
@@ -1117,7 +1116,6 @@ class Structure(UniqueMixin, metaclass=StructMeta):
                 needs_defensive_copy = not isinstance(
                     value,
                     (
-                        ImmutableMixin,
                         int,
                         float,
                         str,
@@ -1125,7 +1123,7 @@ class Structure(UniqueMixin, metaclass=StructMeta):
                         enum.Enum,
                         ImmutableStructure,
                     ),
-                )
+                ) and not (isinstance(value, ImmutableMixin) and value._is_immutable())
                 value = deepcopy(value) if needs_defensive_copy else value
 
         if key in getattr(self, "_constants", {}) and getattr(
